@@ -2962,6 +2962,10 @@ impl HnswBackend {
                 .collect();
         }
 
+        // `scan` takes `doc_store.read()` itself. A recursive read deadlocks as soon as a writer
+        // is queued on the lock (writer preference), so release our guards before falling back.
+        drop(meta_index);
+        drop(store);
         self.scan(|meta| metadata_filter::matches(filter, meta))
     }
 
